@@ -347,13 +347,46 @@ func (c *simCtx) splitOfSubject(v ssa.Value) bool {
 	if c.sc.Fields && !c.sc.Elem && c.sc.Param < len(c.f.Params) && resolve(v) == ssa.Value(c.f.Params[c.sc.Param]) {
 		return true
 	}
-	call, ok := resolve(v).(*ssa.Call)
-	if !ok {
-		return false
-	}
 	need := int64(0)
 	if c.sc.Kind == scArity {
 		need = c.sc.N
+	}
+	rv := resolve(v)
+	// the split handed back by a module helper: result #i of g is, on every
+	// return, strings.Split(parameter k of g, "/") and argument k is the subject
+	var hc *ssa.Call
+	hi := 0
+	if ex, ok := rv.(*ssa.Extract); ok {
+		hc, _ = ex.Tuple.(*ssa.Call)
+		hi = ex.Index
+	} else if cc, ok := rv.(*ssa.Call); ok && !calleeIs(cc, "strings", "Split") && !calleeIs(cc, "strings", "SplitN") {
+		hc = cc
+	}
+	if hc != nil {
+		g := calleeOf(hc)
+		if g == nil || !c.e.w.InModule(g) || g.Blocks == nil {
+			return false
+		}
+		pk := -1
+		for _, ret := range returnsOf(g) {
+			if hi >= len(ret.Results) {
+				return false
+			}
+			sc, ok := resolve(ret.Results[hi]).(*ssa.Call)
+			if !ok || !isSplitCall(sc, need) {
+				return false
+			}
+			k := paramIndex(g, resolve(sc.Call.Args[0]))
+			if k < 0 || (pk >= 0 && pk != k) {
+				return false
+			}
+			pk = k
+		}
+		return pk >= 0 && pk < len(hc.Call.Args) && c.isSubject(hc.Call.Args[pk])
+	}
+	call, ok := rv.(*ssa.Call)
+	if !ok {
+		return false
 	}
 	if !isSplitCall(call, need) {
 		return false
